@@ -265,7 +265,8 @@ def check(fx, rep, tier):
                 recv = recv[1]
             if not (isinstance(recv, tuple) and recv[0] == "field" and recv[1][0] == "local" and recv[1][2] == "self"):
                 continue
-            k = T.term(c["args"][0], T.Env())
+            mut_b = T.mutated_locals(root)
+            k = T.term(c["args"][0], T.env_at(cps, c, mut_b), mut_b)
             while isinstance(k, tuple) and k[0] in ("ref", "deref") and len(k) > 1:
                 k = k[1]
             n_keys += 1
